@@ -71,6 +71,17 @@ func genUUID(rng *rand.Rand, thorough bool) {
 			}
 		}
 	}
+	// multi-byte units overwriting two/three positions
+	multiByteUnits(func(u string) {
+		if len(u) > 3 {
+			return
+		}
+		for _, at := range []int{0, 14, 33} {
+			m := []byte(bases[0])
+			copy(m[at:], u)
+			emit(string(m))
+		}
+	})
 	// all lengths 0..40: prefixes and extensions
 	for _, b := range bases {
 		for n := 0; n <= 40; n++ {
